@@ -238,6 +238,34 @@ def cat_cases(tier):
                         present = _free(prod, leaves)
                         for X in _subsets(present):
                             out.append(("cat", leaves, ["sum", prod, X] if X else prod))
+    # the identical leaf among the parts of one Cat more than once: (t1, t1), (t1, t2, t1), (t1, t1, t2), (t2, t1, t1);
+    # its adjoint is the sum of the slices of the cotangent over its occurrences
+    patterns = [[1, 1], [1, 2, 1], [1, 1, 2], [2, 1, 1]]
+    extras = [(), ("d",)] + ([("a",), ("b",), ("c",)] if tier == "thorough" else [])
+    for v in ("a", "b", "c"):
+        w = {"a": "b", "b": "c", "c": "a"}[v]
+        for pat in patterns:
+            if tier != "thorough" and len(pat) == 3 and v != "b":
+                continue  # quick: three parts only along b (1 + 1 + 1 = 3, so another factor can carry b)
+            for x1 in extras + [(w,)]:
+                for x2 in ([()] if 2 not in pat else [(), (w,)]):
+                    if v in x1 or v in x2:
+                        continue
+                    for other in (None, (v,), (v, w), (w,), ()):
+                        leaves = {1: _leaf((v,) + x1, sizes={v: 1})}
+                        if 2 in pat:
+                            leaves[2] = _leaf((v,) + x2, sizes={v: 1})
+                        cat = ["cat", v, [["leaf", q] for q in pat]]
+                        if other is not None:
+                            if v in other and len(pat) != SIZES[v]:
+                                continue  # the other factor's v must have the concatenated size
+                            leaves[3] = _leaf(other)
+                            prod = ["mul", [cat, ["leaf", 3]]]
+                        else:
+                            prod = cat
+                        present = _free(prod, leaves)
+                        for X in _subsets(present):
+                            out.append(("cat", leaves, ["sum", prod, X] if X else prod))
     return out
 
 
@@ -687,6 +715,8 @@ def case_features(case, free, seed):
 
 def _site(case, prof):
     access = sorted(prof["access"] - {"leaf"})
+    if prof["in_cat"]:
+        return "adjoint_cat"  # also when the leaf is repeated among the parts
     if prof["count"] > 1:
         return "twice-used-leaf"
     if access:
